@@ -21,6 +21,7 @@ import Liftbridge.Driver.CodecDrv
 import Liftbridge.Driver.CursorsDrv
 import Liftbridge.Driver.HWReaderDrv
 import Liftbridge.Driver.PipelineDrv
+import Liftbridge.Driver.GoMiniDrv
 
 namespace Liftbridge.Driver
 open Liftbridge
@@ -70,6 +71,7 @@ def c14 (toks : List String) : String :=
 def step (st : St) (line : String) : St × String :=
   match (line.splitOn " ").filter (· ≠ "") with
   | "c14" :: rest => (st, c14 rest)
+  | "gomini" :: rest => (st, gominiStep rest)
   | "c19" :: rest => (st, c19 rest)
   | "c15" :: rest => (st, c15Step rest)
   | "c17" :: rest => (st, c17 rest)
